@@ -4,6 +4,7 @@ import (
 	"fmt"
 	"runtime"
 	"sort"
+	"strconv"
 	"strings"
 	"sync"
 	"sync/atomic"
@@ -206,12 +207,30 @@ func EnumerateTexts(ctx *core.Ctx, name string, alpha []string, real map[rune]st
 type TextCase struct {
 	Kind       string   `json:"kind"` // "text"
 	Family     string   `json:"family"`
-	Text       string   `json:"text"`     // the text run under test (after a separator blank was added for a line comment)
-	Left       string   `json:"left"`     // neighbour names
+	Text       string   `json:"text"` // the text run under test (after a separator blank was added for a line comment)
+	Left       string   `json:"left"` // neighbour names
 	Right      string   `json:"right"`
-	File       string   `json:"file"`     // complete Soy source
+	File       string   `json:"file"`       // complete Soy source
 	Acceptable []string `json:"acceptable"` // complete outputs the spec allows
 	Obs        Obs      `json:"observed"`
+	// Go-quoted copies, present when the source is not valid UTF-8 (JSON
+	// cannot carry such bytes); --replay prefers them
+	FileQ       string   `json:"fileQuoted,omitempty"`
+	AcceptableQ []string `json:"acceptableQuoted,omitempty"`
+	OutQ        string   `json:"observedOutQuoted,omitempty"`
+}
+
+// quoteInvalid fills the quoted copies of a case whose source has bytes that
+// are not valid UTF-8.
+func (tc *TextCase) quoteInvalid() {
+	if utf8.ValidString(tc.File) {
+		return
+	}
+	tc.FileQ = strconv.QuoteToASCII(tc.File)
+	for _, a := range tc.Acceptable {
+		tc.AcceptableQ = append(tc.AcceptableQ, strconv.QuoteToASCII(a))
+	}
+	tc.OutQ = strconv.QuoteToASCII(tc.Obs.Out)
 }
 
 func isWsByte(c byte) bool { return c == ' ' || c == '\t' || c == '\r' || c == '\n' }
@@ -400,7 +419,13 @@ func alphaNames(f *TextFamily) []string {
 func reportText(ctx *core.Ctx, tc *TextCase, exp *TextExp, l, r Neighbour) {
 	fam := "text"
 	var feature string
+	tc.quoteInvalid()
+	invalid := !utf8.ValidString(tc.Text)
 	switch {
+	case tc.Obs.Panicked && invalid:
+		feature = "panic:text-with-invalid-utf8-bytes"
+	case invalid && tc.Obs.Err == "" && !utf8.ValidString(tc.Text) && string(nonWsBytes(tc.Obs.Out)) != string(nonWsBytes(l.Out+tc.Text+r.Out)):
+		feature = "invalid-utf8-bytes-not-copied-verbatim"
 	case tc.Obs.Panicked:
 		feature = "panic"
 	case tc.Obs.Compile:
@@ -463,6 +488,18 @@ func stripNeighbours(out, lo, ro string) (string, bool) {
 
 // ---------------------------------------------------------------------------
 // Structural classification of a wrong normalisation.
+
+// nonWsBytes drops the four whitespace bytes (byte-level view, for texts that
+// are not valid UTF-8).
+func nonWsBytes(s string) []byte {
+	var res []byte
+	for i := 0; i < len(s); i++ {
+		if !isWsByte(s[i]) {
+			res = append(res, s[i])
+		}
+	}
+	return res
+}
 
 func isWsRune(r rune) bool { return r == ' ' || r == '\t' || r == '\r' || r == '\n' }
 
